@@ -769,7 +769,7 @@ func HandleDeleteUser(cc *hotline.ClientConn, t *hotline.Transaction) (res []hot
 
 	if err := cc.Server.AccountManager.Delete(login); err != nil {
 		cc.Logger.Error("Error deleting account", "Err", err)
-		return res
+		return cc.NewErrReply(t, "Error deleting account.")
 	}
 
 	for _, client := range cc.Server.ClientMgr.List() {
